@@ -1146,7 +1146,7 @@ func verifAssume(cond bool) {}
 //@   ensures err == nil ==> result0.ItemType == &d.ItemType && result0.Total == d.Total
 //@   ensures err == nil ==> ite(d.Items != nil, len(result0.Items) == len(d.Items) && result0.Items != nil, result0.Items == nil)
 //@   loop 0 invariant 0 <= it_ && it_ <= len(d.Items)
-//@   loop 0 invariant raw.ItemType == &d.ItemType && raw.Total == d.Total && len(raw.Items) == len(d.Items) && fresh(raw.Items) && raw.Items != nil
+//@   loop 0 invariant local(rawDocumentCollection).ItemType == &d.ItemType && local(rawDocumentCollection).Total == d.Total && len(local(rawDocumentCollection).Items) == len(d.Items) && fresh(local(rawDocumentCollection).Items) && local(rawDocumentCollection).Items != nil
 //@   modifies nothing
 
 // ---- text hooks called back by encoding/json --------------------------------
